@@ -1348,3 +1348,102 @@ def r92(ctx: Ctx) -> RuleReport:
             rep.violation(f'{fi.fq}: a TOP triple is written for {what}', fi.loc(loop), f'no TOP triple is written under `push.variable == {tv}[{k}]`: such nested nodes get no TOP triple, so '
                           f'"exactly one top-role triple per nested node" fails')
     return rep
+
+
+# ---------------------------------------------------------------------------------------------
+@rule('R94', 'a transformation that introduces a node gives every new triple its marker list: Push on the triple that opens the node (POP on its last triple where the place is known)')
+def r94(ctx: Ctx) -> RuleReport:
+    from ..resolve import expand, facts_ex
+    rep = RuleReport('R94', r94.title, floor=4)
+    for qn in ('reify_edges', 'reify_attributes'):
+        fi = ctx.repo.func('penman.transform', qn)
+        loops = [n for n in walk_local(fi.node) if isinstance(n, ast.For) and norm(n.iter).endswith('.triples')]
+        if len(loops) != 1:
+            rep.undecided(f'{fi.fq}: one loop over g.triples', fi.loc(), f'{len(loops)} loops')
+            continue
+        loop = loops[0]
+        # the triples written for a rewritten triple: <list>.extend((a, b, c)) / several appends with names
+        ext = [n for n in ast.walk(loop) if isinstance(n, ast.Call) and isinstance(n.func, ast.Attribute) and n.func.attr == 'extend' and n.args
+               and isinstance(n.args[0], (ast.Tuple, ast.List)) and all(isinstance(e, ast.Name) for e in n.args[0].elts)]
+        if len(ext) != 1:
+            rep.undecided(f'{fi.fq}: the replacement triples are written with one extend((...))', fi.loc(loop), f'{len(ext)} such calls')
+            continue
+        new_names = [e.id for e in ext[0].args[0].elts]
+        stores = {}
+        for n in ast.walk(loop):
+            if isinstance(n, ast.Assign) and isinstance(n.targets[0], ast.Subscript) and isinstance(n.targets[0].slice, ast.Name) \
+                    and 'epidata' in norm(n.targets[0].value):
+                stores.setdefault(n.targets[0].slice.id, []).append(n)
+        for nm in new_names:
+            key = f'{fi.fq}: the new triple `{nm}` gets a marker list'
+            if nm in stores:
+                rep.ok(key, fi.loc(stores[nm][0]), norm(stores[nm][0].value)[:50])
+            else:
+                rep.violation(key, fi.loc(ext[0]), f'`{nm}` is written into the graph but nothing is stored for it in the marker map: the Push / POP / alignment markers that belong to it are lost '
+                              f'(the new node is then laid out where the improvised search puts it, and the alignments of the original triple disappear)')
+        # which of the new triples opens the new node: the one whose marker list contains Push(<var>)
+        def parts_of(e):
+            e = expand(ctx, fi, e, loop, pure_only=False) if isinstance(e, ast.Name) else e
+            return _concat_parts(e)
+        pushes = []
+        pops = []
+        for nm, sts in stores.items():
+            for st in sts:
+                for part in parts_of(st.value):
+                    if isinstance(part, (ast.List, ast.Tuple)):
+                        for e in part.elts:
+                            if isinstance(e, ast.Call) and norm(e.func) == 'Push':
+                                pushes.append((nm, st))
+                            if norm(e) in ('POP', 'Pop()'):
+                                pops.append((nm, st))
+        key = f'{fi.fq}: exactly one of the new triples carries Push(<new variable>)'
+        if len(pushes) == 1:
+            rep.ok(key, fi.loc(pushes[0][1]), pushes[0][0])
+        elif not pushes:
+            rep.violation(key, fi.loc(loop), 'no marker list of a new triple contains Push(var): the new node is not opened at the triple that points to it, so the text shows a bare variable there and the '
+                          'node is written somewhere else (or the graph fails to encode)')
+        else:
+            rep.violation(key, fi.loc(pushes[1][1]), f'{len(pushes)} new triples carry a Push for the new node: the node is opened twice')
+        if qn == 'reify_attributes':
+            key = f'{fi.fq}: the instance triple of the new node carries POP (the node has no other triple)'
+            if len(pops) == 1:
+                rep.ok(key, fi.loc(pops[0][1]), pops[0][0])
+            elif not pops:
+                rep.violation(key, fi.loc(loop), 'no marker list of a new triple contains POP: the new one-triple node is never closed, so the triples that follow are written inside it')
+            else:
+                rep.undecided(key, fi.loc(loop), f'{len(pops)} POPs')
+        if qn == 'reify_edges' and len(new_names) == 3:
+            # the outer two of the three triples change places when the text wrote the edge inverted
+            a_, _, c_ = new_names
+            swaps = [n for n in ast.walk(loop) if isinstance(n, ast.Assign) and isinstance(n.targets[0], ast.Tuple) and isinstance(n.value, ast.Tuple)
+                     and sorted(norm(e) for e in n.targets[0].elts) == sorted([a_, c_])]
+            key = f'{fi.fq}: the triple that points into the new node and the one that leaves it change places when the edge appears inverted'
+            real = [n for n in swaps if [norm(e) for e in n.value.elts] == [norm(e) for e in n.targets[0].elts][::-1]]
+            fake = [n for n in swaps if n not in real]
+            if real:
+                fx = facts_ex(ctx, fi, real[0])
+                guard = [f for f, pol in fx if pol and f.startswith('appears_inverted(')]
+                nguard = [f for f, pol in fx if not pol and f.startswith('appears_inverted(')]
+                if guard:
+                    rep.ok(key, fi.loc(real[0]), guard[0])
+                elif nguard:
+                    rep.violation(key, fi.loc(real[0]), 'the two triples change places exactly when the edge does NOT appear inverted')
+                else:
+                    c2 = CFG(fi.node)
+                    dead = c2.node_of(real[0]) not in c2.reachable_from([c2.entry])
+                    rep.violation(key, fi.loc(real[0]), 'the statement that lets the two triples change places can never run: an edge written inverted is reified as if it were written forward'
+                                  if dead else 'the two triples always change places, also for an edge the text wrote forward')
+            elif fake:
+                rep.violation(key, fi.loc(fake[0]), f'`{norm(fake[0])}` assigns the two names to themselves: an edge written inverted is reified as if it were written forward, so the new node is '
+                              f'opened from the wrong side and dereifying the encoded result does not give the text back')
+            else:
+                only_def = all(len([x for x in ctx.cg.local_assigns(fi).get(nm, []) if isinstance(x, ast.AST)]) <= 1 for nm in (a_, c_))
+                rep.add(key, fi.loc(ext[0]), 'violation' if only_def else 'undecided',
+                        'the three triples are written in the order Model.reify returns them whatever the layout says: an edge written inverted is reified as if it were written forward')
+        # triples that are not rewritten are copied in place (append, not insert)
+        keeps = [n for n in ast.walk(loop) if isinstance(n, ast.Call) and isinstance(n.func, ast.Attribute) and n.func.attr in ('append', 'insert') and n.args
+                 and isinstance(n.args[-1], ast.Name) and n.args[-1].id == (loop.target.id if isinstance(loop.target, ast.Name) else '')]
+        for k in keeps:
+            rep.add(f'{fi.fq}: an unchanged triple keeps its place', fi.loc(k), 'ok' if k.func.attr == 'append' else 'violation',
+                    '' if k.func.attr == 'append' else f'`{norm(k)[:40]}` moves the triple to the front: the triple order, and with it the layout of the encoded text, is scrambled')
+    return rep
